@@ -67,8 +67,16 @@ def run_case(spec, lines, out):
             emit(f"sval {q} {c} {nums(vals)}", f"ok A {nums(a1)}")
         emit(f"psetend {k}", "ok")
     kind = spec["kind"]
-    if kind == "sdsm" and min_diag < 0.05:
-        return
+    # the stock-driven results are stated for first-interval survival >= 0.05; below that the model is not
+    # driven (division by a vanishing survival: inf / nan), but a recompute must still equal a fresh object:
+    # harness-level observation `note recompute_equals_fresh_at_low_survival`
+    silent = kind == "sdsm" and min_diag < 0.05
+    emit_all = emit
+
+    def emit(line, obs):  # noqa: F811
+        if silent and line.startswith("h_"):
+            return
+        emit_all(line, obs)
     shape = dims.shape
 
     def arr(tokens):
@@ -117,8 +125,9 @@ def run_case(spec, lines, out):
                 emit("h_readpdf", "ok " + nums(stock.lifetime_model.pdf))
             elif op[0] == "compute":
                 try:
-                    stock.compute()
-                    emit("h_compute", results(stock, kind))
+                    if not silent:
+                        stock.compute()
+                        emit("h_compute", results(stock, kind))
                 except Exception:
                     emit("h_compute", "err")
                 # a freshly built stock with the same current inputs
@@ -130,6 +139,28 @@ def run_case(spec, lines, out):
                         emit("note fresh err", "ok")
                     continue
                 lmf = cls(**kw, **prm_objs[k_cur])
+                if silent:
+                    import warnings
+                    f = StockDrivenDSM(dims=dims, lifetime_model=lmf, time_letter="t", solver=spec.get("solver", "manual"),
+                                       stock=StockArray(dims=dims, values=arr(drv)))
+                    with warnings.catch_warnings():
+                        warnings.simplefilter("ignore")
+                        try:
+                            f.compute()
+                            fresh_ok = True
+                        except Exception:
+                            fresh_ok = False
+                        try:
+                            stock.compute()
+                            re_ok = True
+                        except Exception:
+                            re_ok = False
+                    same = fresh_ok == re_ok and (not fresh_ok or all(
+                        np.allclose(np.asarray(a, dtype=float), np.asarray(b, dtype=float), rtol=1e-9, atol=1e-12, equal_nan=True)
+                        for a, b in ((f.inflow.values, stock.inflow.values), (f.outflow.values, stock.outflow.values),
+                                     (f.get_outflow_by_cohort(), stock.get_outflow_by_cohort()))))
+                    emit("note recompute_equals_fresh_at_low_survival", "ok" if same else "CHANGED")
+                    continue
                 if kind == "idsm":
                     f = InflowDrivenDSM(dims=dims, lifetime_model=lmf, time_letter="t",
                                         inflow=StockArray(dims=dims, values=arr(drv)))
